@@ -63,6 +63,8 @@ fn panic_text(p: Box<dyn std::any::Any + Send>) -> String {
 }
 
 pub static HEARTBEAT: AtomicU64 = AtomicU64::new(0);
+/// the input being expanded right now (for the watchdog)
+pub static CURRENT: std::sync::Mutex<(String, usize)> = std::sync::Mutex::new((String::new(), 0));
 pub static EXCLUDED_LET_BOOL: AtomicU64 = AtomicU64::new(0);
 
 /// Dot operands that are not syntactically member accesses make the output invalid by the
@@ -86,6 +88,11 @@ fn dots_are_members(parsed: &JoinInputDefault) -> bool {
 
 pub fn expand(text: &str, ci: usize) -> (Outcome, bool) {
     HEARTBEAT.fetch_add(1, Ordering::Relaxed);
+    if let Ok(mut c) = CURRENT.try_lock() {
+        c.0.clear();
+        c.0.push_str(text);
+        c.1 = ci;
+    }
     let ts = match proc_macro2::TokenStream::from_str(text) {
         Ok(t) => t,
         Err(_) => return (Outcome::NotLexable, false),
@@ -141,11 +148,12 @@ pub fn expand(text: &str, ci: usize) -> (Outcome, bool) {
 
 // ------------------------------------------------------------------ (a) token soups
 
-pub const VOCAB: [&str; 80] = [
+pub const VOCAB: [&str; 86] = [
     "|>", "=>", "?>", "..", ">.", "->", "<|", "<=", "!>", "=>[]", ">@>", "?|>@", "?|>", "|n>", "?&!>", "^^>", "^@", "?^@", "?@", ">^>", "<->", "??", "<<<", ">>>", "~", ",", ",", ",", "let", "mut", "=", "x", "f", "g",
     "map", "then", "and_then", "n", "map =>", "then =>", "and_then =>", "1", "\"s\"", "'c'", "|v| v", "|a, b| a", "Some(1)", "Vec<_>", "len()", "_", "&x", "futures_crate_path(::futures)", "custom_joiner(j)",
     "custom_joiner(m!)", "transpose_results(false)", "transpose_results(true)", "lazy_branches(true)", "lazy_branches(false)", "::", ";", "?", "!", "|", ">",
     "'a", "#", "@", "$", "<", "-", "^", "&", ".", "r#x", "0", "1.5", "x.await", "|| x", "move", "as u8",
+    "r#type", "r#match", "custom_joiner", "lazy_branches", "transpose_results", "futures_crate_path",
 ];
 
 fn soup() -> impl Strategy<Value = Vec<String>> {
@@ -281,6 +289,10 @@ pub fn faults(p: &SProg) -> Vec<(&'static str, String)> {
     ] {
         out.push(("wrap_after_non_wrapper", format!("x {} >>> {} |> f <<<", tok, operand)));
         out.push(("wrap_after_non_wrapper_deferred", format!("x |> g ~{} >>> |> f", tok)));
+        // (the wrapper marker followed by what could be the operator's ordinary operand)
+        out.push(("wrap_after_non_wrapper_operand", format!("x {} >>> y", tok)));
+        out.push(("wrap_after_non_wrapper_operand_closed", format!("x {} >>> y <<< |> f", tok)));
+        out.push(("wrap_after_non_wrapper_end", format!("x {} >>>", tok)));
     }
     // ---- `<<<` combined with `>>>`
     out.push(("unwrap_and_wrap", "x |> >>> |> f <<< >>> |> g".to_string()));
@@ -400,7 +412,7 @@ pub fn run(tier: &str, seed: u64) -> i32 {
     let t0 = std::time::Instant::now();
     let mut ev = Evidence::new("C15", tier, seed, "exploration");
     ev.rule = "inputs: (a) token soups over the DSL vocabulary (all operators, `~`, `>>>`, `<<<`, commas, `let`, handlers, options, identifiers that are DSL keywords, literals, closures, recursively nested (), [], {} groups), length 0-40 token trees; (b) every listed structural fault applied to generated valid programs (empty branch, no branch, `<<<` without a `>>>` in the same step incl. across `~`, `>>>` after each of the 12 non-wrapper spellings, `<<<` with `>>>`, nine non-identifier `let` patterns, duplicated options at every position and rotation); (c) generated valid programs with 1-3 random token-level edits (insert / delete / replace / swap); each under one of the 8 configurations. Oracle: outcome class must be valid expression (demanded only when every `..` operand is a member access, decided by syn on `__x . operand`), syn error, or one of the generator's configuration messages; (b)-inputs must be rejected. Non-trivial = the input reaches the generator or is a (b)-input; distinct by input text x configuration".to_string();
-    ev.assumptions = vec!["a 20 s per-input watchdog reports a stall as inconclusive (exit 2)".into()];
+    ev.assumptions = vec!["an expansion that runs for 20 s is re-run in a fresh process with a 60 s limit: not finished there either = does not terminate (violation); finished there = inconclusive (exit 2)".into()];
     // watchdog: a stalled expansion is reported as inconclusive
     std::thread::spawn(|| {
         let mut last = HEARTBEAT.load(Ordering::Relaxed);
@@ -411,7 +423,17 @@ pub fn run(tier: &str, seed: u64) -> i32 {
             if now == last {
                 idle += 1;
                 if idle >= 4 {
-                    eprintln!("C15: an expansion did not terminate within 20 s (inconclusive)");
+                    // an expansion (microseconds normally) has been running for 20 s. Totality is the
+                    // property: confirm in a fresh process with a 60 s limit before calling it a violation
+                    let (text, ci) = CURRENT.lock().map(|c| c.clone()).unwrap_or_default();
+                    let path = evid::write_replay("C15", &json!({"property": "C15", "engine": "L-c15", "input": text, "config": ci, "kind": "hang", "must_reject": false, "detail": "the expansion of this input does not terminate (20 s in the run, 60 s again in a fresh process)", "seed": 0, "tier": "quick"}));
+                    let confirmed = std::env::current_exe().ok().and_then(|exe| std::process::Command::new(exe).arg("replay").arg(&path).stdout(std::process::Stdio::null()).stderr(std::process::Stdio::null()).status().ok()).map(|st| st.code() == Some(1)).unwrap_or(false);
+                    if confirmed {
+                        evid::print_violation("C15", &path);
+                        std::process::exit(1);
+                    }
+                    let _ = std::fs::remove_file(&path);
+                    eprintln!("C15: an expansion did not terminate within 20 s but does in a fresh process (inconclusive)");
                     std::process::exit(2);
                 }
             } else {
@@ -530,7 +552,20 @@ pub fn replay(v: &serde_json::Value) -> i32 {
     let text = v["input"].as_str().unwrap_or("");
     let ci = v["config"].as_u64().unwrap_or(0) as usize;
     let must_reject = v["must_reject"].as_bool().unwrap_or(false);
-    let (o, _) = expand(text, ci);
+    // the expansion runs on its own thread: not back within 60 s = does not terminate
+    let (tx, rx) = std::sync::mpsc::channel();
+    let t = text.to_string();
+    std::thread::spawn(move || {
+        let _ = tx.send(expand(&t, ci));
+    });
+    let (o, _) = match rx.recv_timeout(std::time::Duration::from_secs(60)) {
+        Ok(r) => r,
+        Err(_) => {
+            println!("replay: the expansion did not terminate within 60 s");
+            println!("replay: violation reproduced");
+            std::process::exit(1);
+        }
+    };
     let bad = match &o {
         Outcome::Panic(_) | Outcome::InvalidOutput(_) => true,
         Outcome::Valid | Outcome::ConfigRejected(_) => must_reject,
